@@ -115,6 +115,16 @@ CHECKS.update({
         technique='Lean renderer+parser models + differential correspondence + round-trip oracle (theorem staged)',
         design='6/C02'),
 })
+CHECKS.update({
+    'C06': dict(
+        level='translation_validation',
+        text='A well-formed spelled document plus one injected declaration breaking one rule (13 kinds, any spelling, any '
+             'position): the real parser must raise exactly the error class of the rule and never return a database; the Lean '
+             'parser+build model must give the same class on every such document.',
+        note='trusted: hand-written model tied by sampling; the speller; theorem C06_reject staged',
+        technique='Lean parser/build model + differential correspondence + violation-injection oracle',
+        design='6/C06'),
+})
 UNDER_CONSTRUCTION = 'check under construction (model and harness being built; see DESIGN.md)'
 
 
